@@ -275,6 +275,52 @@ def work_kinds(shard):
     return P
 
 
+def isa_variants(d, icvn):
+    """well-formed ISA headers whose fixed-width fields contain the component separator (and blanks)
+    at the first / middle / last position of ISA02, ISA04, ISA06, ISA08 -- singly and all at once"""
+    seg, ele, sub = d
+    base = ref.isa(icvn, *d)[:-1].split(ele)
+    out = []
+    slots = (2, 4, 6, 8)
+    for idx in slots:
+        w = len(base[idx])
+        for pos in (0, w // 2, w - 1):
+            p = list(base)
+            p[idx] = p[idx][:pos] + sub + p[idx][pos + 1:]
+            out.append(ele.join(p) + seg)
+    p = list(base)
+    for idx in slots:
+        p[idx] = sub + p[idx][1:-1] + sub
+    out.append(ele.join(p) + seg)
+    p = list(base)
+    p[9] = p[9][:3] + sub + p[9][4:]          # inside the date
+    out.append(ele.join(p) + seg)
+    return out
+
+
+def work_isa(shard):
+    d, icvn, n = shard
+    P = core.Part()
+    seg, ele, sub = d
+    for hdr in isa_variants(d, icvn):
+        assert len(hdr) == 106
+        tails = [b for first in [None] + alphabet(d) for b in bodies(d, n, first)]
+        tails.append('A1' + ele + 'A' + sub + '1' + seg + hdr + 'B2' + ele + sub + seg)       # the same header again, mid-stream
+        for body in tails:
+            text = hdr + body
+            for bs, pol in ((None, None), (3, None), (None, 'one')):
+                v, ctx = run_one(text, bs, None, pol)
+                P.n += 1
+                if v is None:
+                    P.counters['unspecified_by_statement'] += 1
+                    continue
+                P.out('isa|%d' % len(ref.tokenize(text)[0]))
+                for k, msg in v:
+                    P.bad(k, {'text': text, 'bufsize': bs, 'policy': pol}, 'header %r: %s' % (hdr, msg))
+    P.sample({'isa_header_with_separator_in_field': hdr}, cap=1)
+    return P
+
+
 TRIPLES_Q = [('~', '*', ':'), ('\n', '*', ':'), ('!', '|', '>'), ('~', '*', '\\'), ('\x1c', '\x1d', '\x1e'), ('+', '&', '!')]
 
 
@@ -313,11 +359,13 @@ def run(R):
     span = 3 if T else 2
     wsh = [(d, icvn, span, p, 8, T) for d in (std, ('\n', '|', '>')) for icvn in (['00401', '00501'] if T else ['00401']) for p in range(8)]
     R.pmap(work_windows, wsh)
+    R.pmap(work_isa, [(d, icvn, 3 if T else 2) for d in triples(T) for icvn in ('00401', '00501')])
     R.pmap(work_kinds, [(std, '00401', 4 if T else 3), (('!', '|', '>'), '00501', 3)])
     R.bounds = {'A': 'all bodies of length <= %d over {A,1,ele,sub,seg,LF,CR,SP}, both versions, buffer 8192' % nA,
                 'B': 'all bodies <= %d x buffer sizes {1,2,3,5,8} x every read schedule with <= %d short reads (+ one-char and short-by-one schedules)' % (nB, devB),
                 'C': '%d delimiter triples x all bodies <= %d x buffer {8192,3}' % (len(triples(T)) - 1, nC),
                 'windows': 'every character of 6 tails at every offset -%d..+%d around 106+8192 and 106+2*8192, incl. a segment longer than the buffer' % (span, span),
+                'isa fields': '%d delimiter triples x 2 versions x 14 headers with the component separator inside ISA02/04/06/08/09 x all bodies <= %d (+ the header repeated mid-stream) x {default, buffer 3, one-char reads}' % (len(triples(T)), 3 if T else 2),
                 'source kinds': 'StringIO, open text file, path string on all CR-free bodies <= %d' % (4 if T else 3)}
     R.assumptions = ['pieces whose leading blanks are followed by CR/LF, and blank-only pieces, are left open by the statement and are skipped (counted)',
                      'path/file source kinds are compared on CR-free texts only (text mode translates CR)',
